@@ -644,11 +644,11 @@ def check_radon_corr(ctx: Ctx):
     column sums of the model-masked image  vs  the sinograms of both implementations"""
     r = ctx.rng
     cases = []
-    ns = list(range(2, 17)) + [21, 32, 33] + ([] if ctx.quick else [44, 45, 64, 65])
-    for i in range(ctx.budget(20, 150)):
+    ns = list(range(2, 17)) + ([] if ctx.quick else [21, 32, 33])   # printing n^2 points per angle dominates
+    for i in range(ctx.budget(24, 150)):
         n = ns[i % len(ns)]
         tk = ["special", "random", "uniform", "ends"][i % 4]
-        A = 2 if tk == "ends" else (r.choice([1, 2, 3]) if n <= 16 else 1)
+        A = 2 if tk == "ends" else (r.choice([1, 2, 3]) if n <= 12 else 1)
         cases.append({"n": n, "theta_kind": tk, "A": A, "img_kind": IMG_KINDS[i % 5], "seed": r.randrange(1 << 30)})
     exprs = []
     for c in cases:
